@@ -277,7 +277,9 @@ class ProfileEngine:
             return rng.choice(["absolute", "relative cp"])
         if key == "range_x":
             return rng.choice([[0, 0], [0.0, 0.0], [-1e-6, 5e-7],
-                               [-2e-6, 1e-6], [-5e-7, 0.0]])
+                               [-2e-6, 1e-6], [-5e-7, 0.0],
+                               [-1.23456e-6, 4.5e-10],
+                               [-7.7777e-7, 1.00004e-6]])
         if key == "segment":
             return rng.choice([0, 1])
         if key == "weight_cp":
@@ -333,9 +335,10 @@ class ProfileEngine:
             seq.append(rng.choice(["absolute", "relative", "relative"]))
             s["range_type"] = seq
         if rng.random() < 0.5:
-            s["left"] = rng.choice(["-1", "-0.5", "-2.5", "0"])
+            s["left"] = rng.choice(["-1", "-0.5", "-2.5", "0",
+                                    "-1.23456"])
         if rng.random() < 0.5:
-            s["right"] = rng.choice(["0.5", "1", "0", "2"])
+            s["right"] = rng.choice(["0.5", "1", "0", "2", "0.00045"])
         if rng.random() < 0.5:
             s["weight_cp"] = rng.choice(["0.5", "1", "0", "0.25"])
         if rng.random() < 0.4:
@@ -370,12 +373,18 @@ class ProfileEngine:
                 if rng.random() < 0.5:
                     # values strictly inside the parameter's bounds
                     ops.append({"op": "set", "key": f"fit param {p} value",
-                                "value": float(rng.choice(self.SAFE[p]))
-                                if rng.random() < 0.8 else
-                                int(float(self.SAFE[p][0])) or 1})
+                                "value": int(float(self.SAFE[p][0]))
+                                if (p in ("E", "alpha")
+                                    and rng.random() < 0.2) else
+                                float(rng.choice(self.SAFE[p]))})
                 else:
                     ops.append({"op": "set", "key": f"fit param {p} vary",
                                 "value": rng.random() < 0.5})
+            elif r < 0.45:
+                ops.append({"op": "set_bad", "key": rng.choice(
+                    ["range_x", "segment", "preprocessing"]),
+                    "kind": rng.choice(["ndarray", "npint", "set",
+                                        "bytes"])})
             elif r < 0.5:
                 ops.append({"op": "get", "key": rng.choice(keys)})
             elif r < 0.62:
@@ -387,9 +396,17 @@ class ProfileEngine:
             else:
                 ops.append({"op": "setup", "script": self.gen_script(rng)})
         for op in ops:
-            if op["op"] in ("set", "get", "get_fit_params", "restart"):
+            if op["op"] in ("set", "get", "get_fit_params", "restart",
+                            "set_bad"):
                 op["via"] = rng.randrange(3)
         if with_fit:
+            if rng.random() < 0.35:
+                # a batch fit, a profile change, and another batch fit into
+                # the same results folder
+                ops.append({"op": "fit_perform"})
+                k = rng.choice(["weight_cp", "model_key", "range_x"])
+                ops.append({"op": "set", "key": k,
+                            "value": self.gen_value(rng, k)})
             ops.append({"op": "fit_perform"})
         data = []
         for _ in range(rng.choice([1, 1, 2])):
@@ -443,7 +460,12 @@ class ProfileEngine:
 
         def read_all(i, feats):
             """F1: a new Profile returns the reference for every key."""
-            p2 = prof.Profile(path)
+            try:
+                p2 = prof.Profile(path)
+            except _caught() as e:
+                return viol("F1", f"read-raises:{type(e).__name__}", feats,
+                            f"a new Profile on the file raised "
+                            f"{type(e).__name__}: {str(e)[:150]}", i)
             for k in sorted(ref):
                 try:
                     got = p2[k]
@@ -456,7 +478,12 @@ class ProfileEngine:
                     return viol("F1", f"value:{k}", dict(feats, key=k),
                                 f"profile returns {got!r} for {k!r}, "
                                 f"stored was {ref[k]!r}", i)
-            raw = json.loads(path.read_text())
+            try:
+                raw = json.loads(path.read_text())
+            except ValueError as e:
+                return viol("F1", "file-unreadable", feats,
+                            f"the profile file is not valid JSON any more: "
+                            f"{e}", i)
             for k, v in explicit.items():
                 if k not in raw or not same(raw[k], jnorm(v)):
                     return viol("F1", "value:fit-param", dict(feats, key=k),
@@ -481,6 +508,24 @@ class ProfileEngine:
                         else:
                             ref[op["key"]] = op["value"]
                         wrote = True
+                    elif kind == "set_bad":
+                        bad = {"ndarray": np.array([-1e-6, 1e-6]),
+                               "npint": np.int64(1),
+                               "set": {"compute_tip_position"},
+                               "bytes": b"abc"}[op["kind"]]
+                        feats["kind"] = op["kind"]
+                        try:
+                            pf[op["key"]] = bad
+                            stored_bad = True
+                        except TypeError:
+                            stored_bad = False
+                        probes["write of a value JSON cannot encode"] += 1
+                        if stored_bad:
+                            # an implementation may convert and store it
+                            ref[op["key"]] = jnorm(
+                                pf.load().get(op["key"]))
+                        # refused or not: everything stored before must
+                        # still be readable (read_all below)
                     elif kind == "get":
                         got = pf[op["key"]]
                         oracle_checks += 1
